@@ -21,6 +21,11 @@ func restartActs() Acts {
 		V20: 5, DevRewards: 200, SprSig: 200, OneWaySmall: 210, V202: 210, V204: 300, V204Burn: 310, PIP10: 12}
 }
 
+// restartChainZeroAt: heights at which the SPR set quotes the named asset at twice the OPR price
+// (from 2.0.2 on the asset is then recorded at 0 for that height); with it the chain carries SPR
+// sets from 2.0 on. nil for the plain OPR-only chain.
+var restartChainZeroAt map[uint32]string
+
 // buildRestartChain produces the chain on a live lock-step run: trending rates, an ungraded
 // block every few heights, and conversions out of the trending assets (so the average binds).
 func buildRestartChain(rep *Report, s Setup, g *Gen, length uint32, gaps map[uint32]bool) ([]*BlockSpec, []string, bool) {
@@ -57,6 +62,27 @@ func buildRestartChain(rep *Report, s Setup, g *Gen, length uint32, gaps map[uin
 			}
 			b.OPR = g.OPRSet(h, ver, w.LastShortHashes(h), n, g.Rates, nil)
 		}
+		if restartChainZeroAt != nil && h >= s.Acts.V20 && !gaps[h] {
+			if top := w.TopPEG(100); len(top) > 0 {
+				ids := make([][]byte, 25)
+				signers := make([]factom.FsAddress, 25)
+				payout := make([]string, 25)
+				for i := range ids {
+					ids[i] = top[i%len(top)]
+					signers[i] = g.Users[0].Fs
+					payout[i] = g.Miners[i%len(g.Miners)]
+				}
+				rates := map[string]uint64{}
+				for k, v := range g.Rates {
+					rates[k] = v
+				}
+				if name, ok := restartChainZeroAt[h]; ok {
+					rates[name] = rates[name] * 2
+					rep.Count("restart:zero-quote:" + name)
+				}
+				b.SPR = g.SPRSet(h, SPRVersionAt(s.Acts, h), ids, signers, payout, rates, nil)
+			}
+		}
 		if h < s.Acts.V20+2 {
 			for i, u := range g.Users {
 				b.FCT = append(b.FCT, Burn(h, u.FA(), 500e8, i))
@@ -89,6 +115,13 @@ func buildRestartChain(rep *Report, s Setup, g *Gen, length uint32, gaps map[uin
 				What: fmt.Sprintf("reference run: height %d", h), Detail: []string{res.Diff, res.ImplMsg, res.ModelAns}, Blocks: ChainJSON(run.Chain)})
 			if res.Diff != "" {
 				rep.Disagree("lockstep:restart-ref", res.Diff, path)
+				if res.ImplOK {
+					// the search for a failing input goes on: the chain is completed by the
+					// implementation alone, and the restarted runs are compared with this run
+					run.NoModel = true
+					final = res.Dump
+					continue
+				}
 			} else {
 				rep.Disagree("reference:stuck:"+res.ImplClass, fmt.Sprintf("h=%d %s", h, res.ImplMsg), path)
 			}
@@ -237,10 +270,51 @@ func scenRestart(rep *Report, tier string, seed int64) {
 		}
 	}
 	eraRestarts(rep, tier, seed)
+	zeroQuoteRestarts(rep, tier, seed)
 	rep.Rule = "one evaluation = the whole chain synced by the real daemon with clean restarts (fresh NewPegnetd on the same file) after a set of heights, in lock-step with the model, final ledger compared with the continuous run; distinct = distinct restart sets"
 }
 
 func init() { scenarios["restart"] = scenRestart }
+
+// zeroQuoteRestarts: the 2.0.2 band rule records an asset at 0 when the winning OPR and SPR
+// disagree by more than 25 %. A chain WITHOUT ungraded blocks (so that the documented
+// count-versus-window difference of the averaging cache plays no part) in which two of the
+// assets the users keep converting are quoted at 0 at some heights, synced continuously and with
+// restarts placed inside the averaging window after those heights: the ledgers must be equal.
+func zeroQuoteRestarts(rep *Report, tier string, seed int64) {
+	g := NewGen(seed+311, 3, 0)
+	a := restartActs()
+	a.DevRewards, a.SprSig, a.OneWaySmall, a.V202 = 7, 7, 8, 8
+	s := Setup{Acts: a, AvgPeriod: 8, SyncVersion: mainnetSyncVersion}
+	length := uint32(40)
+	restartChainZeroAt = map[uint32]string{16: "EUR", 17: "XBT", 27: "JPY", 28: "EUR"}
+	defer func() { restartChainZeroAt = nil }()
+	chain, refDump, ok := buildRestartChain(rep, s, g, length, map[uint32]bool{})
+	if !ok {
+		return
+	}
+	sets := []map[uint32]bool{{18: true}, {20: true}, {23: true}, {29: true, 33: true}}
+	if tier == "thorough" {
+		sets = nil
+		for h := uint32(14); h < length-2; h++ {
+			sets = append(sets, map[uint32]bool{h: true})
+		}
+	}
+	for _, at := range sets {
+		dump, ok, _ := replayWithRestartsX(rep, s, chain, at)
+		if !ok {
+			continue
+		}
+		rep.Case(fmt.Sprintf("zero-quote-restarts=%v", keys(at)), true)
+		rep.Count("restart-set:zero-quote")
+		if diff := FirstDiff(dropBackfill(dump), dropBackfill(refDump)); diff != "" {
+			path := WriteReplay(rep.Property, "restart-zero-quote", Replay{Property: rep.Property, Scenario: "restart", Seed: seed, Setup: s,
+				What:   fmt.Sprintf("chain with zero-quoted assets and no ungraded block: the ledger after clean restarts after heights %v differs from the continuous run", keys(at)),
+				Detail: []string{diff}, Blocks: ChainJSON(chain), Extra: map[string]interface{}{"restart_after": keys(at)}})
+			rep.Violate("restart:ledger-differs:zero-quote-chain", fmt.Sprintf("restarts after %v: %s", keys(at), diff), path)
+		}
+	}
+}
 
 // eraRestarts: restart independence across the rule changes. An era-crossing chain (all entry
 // kinds, transfers to the special addresses before and after their activations; PIP-10 out of
